@@ -268,10 +268,79 @@ def r5_similarity(ctx):
     ctx.ob(gj.where, "Geometry.jaccard = |a&b| / (|a| + |b| - |a&b|)", ok, u(e)[:160] if e is not None else "", key="C08-R5|geometry-jaccard")
 
 
+def _enum(call):
+    """enumerate(X[lo:], start) -> (X text, lo poly, start poly); enumerate(X) -> (X, 0, 0)"""
+    if not (isinstance(call, ast.Call) and u(call.func) == "enumerate" and call.args):
+        return None
+    seq = call.args[0]
+    start = call.args[1] if len(call.args) > 1 else next((k.value for k in call.keywords if k.arg == "start"), None)
+    sp = sym.poly(start) if start is not None else sym.Poly.const(0)
+    if isinstance(seq, ast.Subscript) and isinstance(seq.slice, ast.Slice) and seq.slice.upper is None and seq.slice.step is None:
+        lo = sym.poly(seq.slice.lower) if seq.slice.lower is not None else sym.Poly.const(0)
+        return u(seq.value), lo, sp
+    return u(seq), sym.Poly.const(0), sp
+
+
+def r6_pairwise_matrix_and_inputs(ctx):
+    """(a) all-vs-all Jaccard: the value computed for the pair (masks[p], masks[q]) is stored at [p, q] and [q, p]: the positions are derived from
+    the two enumerate() calls symbolically.  (b) interval operations do not write into the coordinate arrays of their arguments (a later operation on
+    the same intervals would see shifted coordinates): ownership analysis shared with C20, restricted to the interval modules."""
+    ix = ctx.index
+    f = ix.func("bionumpy.genomic_data.geometry", "Geometry.jaccard_all_vs_all")
+    outer = [n for n in f.node.body if isinstance(n, ast.For)]
+    ctx.need(len(outer) == 1 and isinstance(outer[0].target, ast.Tuple), "jaccard_all_vs_all: outer enumerate loop not found")
+    eo = _enum(outer[0].iter)
+    inner = [n for n in outer[0].body if isinstance(n, ast.For)]
+    ctx.need(eo is not None and len(inner) == 1 and isinstance(inner[0].target, ast.Tuple), "jaccard_all_vs_all: inner enumerate loop not found")
+    ei = _enum(inner[0].iter)
+    ctx.need(ei is not None and ei[0] == eo[0], "jaccard_all_vs_all: the two loops do not enumerate the same list")
+    i, a = (u(x) for x in outer[0].target.elts)
+    j, b = (u(x) for x in inner[0].target.elts)
+    pos_a = sym.Poly.atom(i) - eo[2] + eo[1]
+    pos_b = sym.Poly.atom(j) - ei[2] + ei[1]
+    env = {}
+    for st in inner[0].body:
+        if isinstance(st, ast.Assign) and isinstance(st.targets[0], ast.Name):
+            env[st.targets[0].id] = st.value
+    stores = [st for st in inner[0].body if isinstance(st, ast.Assign) and isinstance(st.targets[0], ast.Subscript) and isinstance(st.targets[0].slice, ast.Tuple)]
+    ctx.floor("stores into the pairwise matrix", len(stores), 2)
+    cells = set()
+    for st in stores:
+        v = sym.canon(st.value, env)
+        okv = v in (f"self.jaccard({a}, {b})", f"self.jaccard({b}, {a})")
+        e1, e2 = (sym.poly(x) for x in st.targets[0].slice.elts)
+        cells.add((str(e1), str(e2)))
+        ctx.ob(f.where, "the stored value is the Jaccard index of the two enumerated masks", okv, u(st), key="C08-R6|pair-value")
+    want = {(str(pos_a), str(pos_b)), (str(pos_b), str(pos_a))}
+    ctx.ob(f.where, f"the pair (element {pos_a}, element {pos_b}) of the list is stored at [{pos_a}, {pos_b}] and its mirror", cells == want, f"stored at {sorted(cells)}",
+           key="C08-R6|pair-cells")
+    ok_sz = any(isinstance(n, ast.Assign) and sym.canon(n.value) == sym.canon(sym.parse_expr(f"np.zeros((len({f.params[1]}), len({f.params[1]})))")) for n in f.node.body)
+    ctx.ob(f.where, "the matrix has one row and one column per interval set", ok_sz, "", key="C08-R6|matrix-shape")
+    # (b)
+    from .c20 import _analysis, ALLOWED_PARAM_MUTATORS
+    an = _analysis(ctx)
+    n = 0
+    for key, summ in an.summaries.items():
+        if not (key[0].startswith("bionumpy.arithmetics") or key[0] == "bionumpy.genomic_data.geometry"):
+            continue
+        n += 1
+        fi = an.funcs[key]
+        params = [x.arg for x in fi.node.args.posonlyargs + fi.node.args.args]
+        for idx, ws in summ.mutates.items():
+            p = params[idx] if idx < len(params) else "?"
+            if p in ("self", "cls") and idx == 0 and fi.cls is not None:
+                continue
+            ok = (key[0], key[1], p) in ALLOWED_PARAM_MUTATORS
+            ctx.ob(ws.where, f"{key[0]}:{key[1]} does not write into its argument `{p}` (the caller's intervals keep their coordinates)", ok,
+                   f"[{ws.kind}] `{ws.stmt}`" + (f" via {ws.via}" if ws.via else ""), key=f"C08-R6|input-written|{key[0]}|{key[1]}|{p}")
+    ctx.floor("interval functions examined for writes into their arguments", n, 40)
+
+
 RULES = [
     ("C08-R1", r1_merge),
     ("C08-R2", r2_sort_keys),
     ("C08-R3", r3_overlap_family),
     ("C08-R4", r4_clamps),
     ("C08-R5", r5_similarity),
+    ("C08-R6", r6_pairwise_matrix_and_inputs),
 ]
